@@ -42,16 +42,22 @@ def nodes(t, v, path=()):
         yield from nodes(t[1][v[0]], v[1], path + ("#",))
 
 
-def grow_value(t, v):
-    """a value of the same shape whose dynamic parts need more room (None if the type has none)"""
+_ROOMS = {}  # absolute path of a string -> room fixed at its creation (set from the state before a menu / a misuse is built)
+
+
+def grow_value(t, v, path=()):
+    """a value of the same shape whose dynamic parts need more room than was fixed at creation (None if the type has none);
+    `path` is the absolute path of v: the room of a string is the one recorded when it was created, not the one its
+    current text would get"""
     k = t[0]
     if k == "Str":
-        return v + "X" * (hist.string_room(v) - len(v.encode("utf8")) + 9)
+        room = _ROOMS.get(tuple(path), hist.string_room(v))
+        return v + "X" * (room - len(v.encode("utf8")) + 9)
     if k == "S":
         return None
     if k == "St":
         for n, ft in t[1]:
-            g = grow_value(ft, v[n])
+            g = grow_value(ft, v[n], tuple(path) + (n,))
             if g is not None:
                 d = dict(v)
                 d[n] = g
@@ -69,13 +75,19 @@ def grow_value(t, v):
                 items[idx] = v["items"].get(idx, proto)
             return {"shape": tuple(shape), "items": items}
         for idx, iv in v["items"].items():
-            g = grow_value(t[1], iv)
+            g = grow_value(t[1], iv, tuple(path) + (idx,))
             if g is not None:
                 items = dict(v["items"])
                 items[idx] = g
                 return {"shape": v["shape"], "items": items}
         return None
     return None
+
+
+def rooms_full(t, v, path):
+    """every string directly inside (t, v) fills the slot count of the room fixed at its creation (so that sizes computed from
+    the current texts are the sizes in the buffer)"""
+    return all(hist.string_room(lv) == _ROOMS.get(tuple(path) + tuple(lp), hist.string_room(lv)) for lp, lt, lv in xt.leaf_paths(t, v) if lt[0] == "Str" and not any(q in ("*", "#") for q in lp))
 
 
 def resplit_value(t, v):
@@ -179,6 +191,8 @@ def misuse_menu(s, opts, d):
         return hist.events(s, o, d)
     evs = []
     t, mv = s.t, s.mv
+    _ROOMS.clear()
+    _ROOMS.update(s.rooms)
     seen_arr = seen_sc = 0
     for path, nt, nv in nodes(t, mv):
         if nt[0] == "A":
@@ -213,7 +227,7 @@ def misuse_menu(s, opts, d):
                         evs.append(("x-len", via, path, "int-longer"))
                         if len(shape) > 1 and int(np.prod(shape)) != shape[0]:
                             evs.append(("x-len", via, path, "int-total"))
-                    if xt.is_dyn(nt[1]) and nv["items"] and grow_value(nt[1], next(iter(nv["items"].values()))) is not None:
+                    if xt.is_dyn(nt[1]) and nv["items"] and grow_value(nt[1], next(iter(nv["items"].values())), tuple(path) + (next(iter(nv["items"])),)) is not None:
                         evs.append(("x-items", via, path, "first"))
                         if len(nv["items"]) > 1:
                             evs.append(("x-items", via, path, "last-alt"))
@@ -225,12 +239,12 @@ def misuse_menu(s, opts, d):
             for rp in inner[:1] + inner[-1:] if len(inner) > 1 else inner:
                 for form in ("foreign-object", "unknown-name", "one-tuple"):
                     evs.append(("x-union-in", "h", path, rp, form))
-        if nt[0] == "St" and (not path or path[-1] not in ("*", "#")) and resplit_value(nt, nv) is not None:
+        if nt[0] == "St" and (not path or path[-1] not in ("*", "#")) and rooms_full(nt, nv, path) and resplit_value(nt, nv) is not None:
             # same total size, other split between two dynamic fields, given as an xobject: every part keeps the room fixed at
             # its creation, so this is a misfit exactly as the same value given as a dictionary is
             for src in ("other", "same"):
                 evs.append(("x-struct-resplit", "h", path, src))
-        if nt[0] == "St" and path and path[-1] not in ("*", "#") and len(nt[1]) > 1 and xt.is_dyn(nt) and grow_value(nt, nv) is not None:
+        if nt[0] == "St" and path and path[-1] not in ("*", "#") and len(nt[1]) > 1 and xt.is_dyn(nt) and grow_value(nt, nv, path) is not None:
             for via in ("h", "v"):
                 evs.append(("x-struct", via, path))
             evs.append(("x-struct-xobj", "h", path))
@@ -255,6 +269,8 @@ def apply_misuse(s, ev):
     import xobjects as xo
 
     kind, via, path = ev[0], ev[1], ev[2]
+    _ROOMS.clear()
+    _ROOMS.update(s.rooms)
     rt, rh = s.t, (s.h if via == "h" else hist.view_of(s))
     if via == "v" and s.t[0] == "U":
         names = xt.member_names(s.t)
@@ -313,22 +329,22 @@ def apply_misuse(s, ev):
         order = list(xt.mem_indices(nv["shape"], nt[3]))
         if variant == "first":
             k = next(iter(items))
-            items[k] = grow_value(nt[1], items[k])
+            items[k] = grow_value(nt[1], items[k], tuple(ev[2]) + (k,))
         else:
             last = order[-1]
             for j, k in enumerate(order[:-1]):
                 items[k] = hist.same_size_alt(nt[1], items[k], j) if variant == "last-alt" else shrink_value(nt[1], items[k])
-            items[last] = grow_value(nt[1], items[last])
+            items[last] = grow_value(nt[1], items[last], tuple(ev[2]) + (last,))
         g = {"shape": nv["shape"], "items": items}
         hand.assign(rt, rh, path, xt.to_py(nt, g))
     elif kind == "x-struct":
         # every field before the last growable one gets another (fitting) value, the last growable part is too large
         d = {}
         names = [n for n, ft in nt[1]]
-        growable = [n for n, ft in nt[1] if grow_value(ft, nv[n]) is not None]
+        growable = [n for n, ft in nt[1] if grow_value(ft, nv[n], tuple(ev[2]) + (n,)) is not None]
         for j, (n, ft) in enumerate(nt[1]):
             if n == growable[-1]:
-                d[n] = grow_value(ft, nv[n])
+                d[n] = grow_value(ft, nv[n], tuple(ev[2]) + (n,))
             else:
                 d[n] = hist.same_size_alt(ft, nv[n], j) if not xt.has_refs(ft) else nv[n]
         hand.assign(rt, rh, path, xt.to_py(nt, d))
@@ -342,7 +358,7 @@ def apply_misuse(s, ev):
             rh._update(src)
     elif kind == "x-struct-xobj":
         # an xobject of the same class whose dynamic parts are larger than the space of the element
-        g = grow_value(nt, nv)
+        g = grow_value(nt, nv, tuple(ev[2]))
         src = xt.construct(nt, xt.to_py(nt, g), _buffer=place.traced("np", 0))
         hand.assign(rt, rh, path, src)
     elif kind == "x-union-in":
